@@ -24,6 +24,7 @@ EXPLANATION = (
     " Added after seed round 7: U7 to_prolog re-defines a deterministic query / evidence atom with its own truth value and writes the observed polarity of evidence (scenario tables; helper methods evaluated under the same scenario)."
     " Added after seed round 8: U8 per-node tables on the export path are indexed with abs(child); the header and clause lines of to_dimacs are decided on the text they denote."
     " Added after seed round 9: U9 _is_valid_name folded for sample functors: only `choice` and `body_<n>` are internal names."
+    " Added after seed round 11: U10 extract_ads fills the table entry it inspected in the guarding test (positive example matched on every run)."
 )
 TECHNIQUE = "static analysis: decision table of the DIMACS writer loop (every internal clause emitted once), writer/counter pairing, wiring rules of the ground task"
 LEVEL_TEXT = EXPLANATION
@@ -591,6 +592,46 @@ def rule_u9(repo, col):
     col.floor("U9.functors", n, 8)
 
 
+def guarded_store_key_mismatches(fnode):
+    """`if ... T.get(K) ...: T[K2] = v` (or `K in T` / `K not in T`) with K2 != K, both plain names: the entry that was inspected is not the entry that is written"""
+    out = []
+    for n in ast.walk(fnode):
+        if not isinstance(n, ast.If):
+            continue
+        reads = {}
+        for x in ast.walk(n.test):
+            if isinstance(x, ast.Call) and isinstance(x.func, ast.Attribute) and x.func.attr == "get" and x.args and isinstance(x.args[0], ast.Name) and isinstance(x.func.value, ast.Name):
+                reads.setdefault(x.func.value.id, set()).add(x.args[0].id)
+            if isinstance(x, ast.Compare) and len(x.ops) == 1 and isinstance(x.ops[0], (ast.In, ast.NotIn)) and isinstance(x.left, ast.Name) and isinstance(x.comparators[0], ast.Name):
+                reads.setdefault(x.comparators[0].id, set()).add(x.left.id)
+        for st in n.body:
+            if isinstance(st, ast.Assign) and len(st.targets) == 1 and isinstance(st.targets[0], ast.Subscript) and isinstance(st.targets[0].value, ast.Name) \
+                    and isinstance(st.targets[0].slice, ast.Name) and st.targets[0].value.id in reads and st.targets[0].slice.id not in reads[st.targets[0].value.id]:
+                out.append((n, st, st.targets[0].value.id, sorted(reads[st.targets[0].value.id]), st.targets[0].slice.id))
+    return out
+
+
+def rule_u10(repo, col):
+    """extract_ads hands the name of a disjunction down to the annotated-disjunction choice below it: the table entry it inspects (`choice_name.get(p)`) is the entry it fills"""
+    pos = guarded_store_key_mismatches(ast.parse("def f(t, p, o, n):\n    if not t.get(p):\n        t[o] = n\n"))
+    if len(pos) != 1:
+        raise AnalysisError("guarded-store rule does not match its positive example")
+    f = repo.func("problog.formula", "LogicFormula.extract_ads")
+    m = f.module
+    stores = [x for x in ast.walk(f.node) if isinstance(x, ast.Assign) and isinstance(x.targets[0], ast.Subscript) and isinstance(x.targets[0].value, ast.Name)]
+    if len(stores) < 3:
+        raise AnalysisError("extract_ads: table stores not found")
+    bad = guarded_store_key_mismatches(f.node)
+    for _if, st, tab, rk, wk in bad:
+        col.fail("U10", m, st, "extract_ads inspects %s[%s] and then fills %s[%s]: the name is filed under another node than the one the test was about - the head of an annotated "
+                 "disjunction reached through its body conjunction loses its name and is exported as choice(..), with no clause for the head itself (re-reading the exported program "
+                 "raises UnknownClause)" % (tab, "/".join(rk), tab, wk), construct="extract_ads: %s inspected under %s, written under %s" % (tab, "/".join(rk), wk),
+                 function="LogicFormula.extract_ads")
+    if not bad:
+        col.ok("U10", m, f.node, "extract_ads fills the table entries it inspects (%d table stores)" % len(stores), construct="extract_ads: inspected entry == written entry",
+               function="LogicFormula.extract_ads")
+
+
 def run(repo, col):
     col.rule("U1", "DIMACS writer: every internal clause emitted exactly once, no weight column, header counts")
     col.rule("U2", "to_dimacs text format")
@@ -610,3 +651,5 @@ def run(repo, col):
     rule_u8(repo, col)
     col.rule("U9", "_is_valid_name hides only the invented functors")
     rule_u9(repo, col)
+    col.rule("U10", "extract_ads fills the table entry it inspects")
+    rule_u10(repo, col)
